@@ -607,4 +607,25 @@ func readableSet.SubtractReactive$2$1
   ghost after call SetArithmetic.Subtract: arithres = result
   ensures r0 == arithres
 
+
+-- ---------------------------------------------------------------------------------------------------------------
+-- Variable.InheritFrom: the variable copies its source - every reported value is stored, and the subscription asks for
+-- the initial report also when the source holds the zero value (otherwise a variable that already holds something else
+-- keeps that stale value until the source changes for the first time)
+func ReadableVariable.OnUpdate(src, callback, trig) (unsub)
+  callback callback(prev, new)
+    opt anytime
+  modifies everything
+  ensures unsub != nil
+func variable.InheritFrom
+  instantiate Type: int
+  requires v != nil && other != nil
+  modifies everything
+  ghost before call ReadableVariable.OnUpdate: assert arg0 == other && len(arg2) == 1 && arg2[0]
+  ensures r0 != nil
+func variable.InheritFrom$1
+  instantiate Type: int
+  requires v != nil && *v != nil
+  modifies everything
+  ghost before call variable.Set: assert arg0 == *v && arg1 == newValue
 @*/
